@@ -10,7 +10,8 @@
      LBFGSDirection           none                     (memory < 1: initialize throws)
      NoopDirection            none
      AndersonDirection        memory >= 1              (memory = 0: zero-column storage that compute indexes)
-     StructuredLBFGSDirection memory >= 1, the capability checks of initialize, CBFGS off (apply_masked throws with CBFGS). *)
+     StructuredLBFGSDirection none             (memory < 1 / a failing capability check: initialize throws; CBFGS: apply_masked throws;
+                                               struct_len_all.  struct_len is the statement under the no-throw conditions of DirWf.struct_wf). *)
 From Coq Require Import Reals List ZArith Bool Arith Lia.
 From Alpaqa Require Import Num NumR Vec Prox Lbfgs LMQR Directions DirWf.
 Import ListNotations.
@@ -118,3 +119,54 @@ Lemma struct_len n pw (LP : Lbfgs.params R) lb ub l1 Dlb Dub prov_inactive prov_
                       grad_psi_at hess_L_prod hess_psi_prod eval_g grad_gi cbrt_eps hvf fd full_aug use_scaled)
           (fun _ => True) (SIv n LP).
 Proof. intros H1 H2 H3. apply dir_wf_len. now apply struct_wf. Qed.
+
+(* StructuredLBFGSDirection keeps dimensions WITHOUT any hypothesis: the three preconditions above are exactly the conditions under which
+   a call throws (initialize: memory < 1 or a capability check fails; apply_masked: CBFGS), and dir_len only speaks about calls that return *)
+Lemma apply_masked_len n pw (LP : Lbfgs.params R) (st : Lbfgs.state R) q γ J : LIv n LP st -> length q = n ->
+  match Lbfgs.apply_masked pw LP st q γ J with
+  | (MThrow, _, _) => True
+  | (MRet b, q', st') => LIv n LP st' /\ length q' = n
+  end.
+Proof.
+  intros Hs Hq. destruct (cbfgs_on LP) eqn:Ec.
+  - unfold Lbfgs.apply_masked. destruct (is_empty st); [split; assumption|]. cbv zeta. rewrite Ec. exact I.
+  - pose proof (apply_masked_wf n pw LP Ec st q γ J Hs Hq) as H.
+    destruct (Lbfgs.apply_masked pw LP st q γ J) as [[r q'] st']. destruct r; [contradiction|exact H].
+Qed.
+
+Lemma struct_len_all n pw (LP : Lbfgs.params R) lb ub l1 Dlb Dub prov_inactive prov_hess_L prov_hess_psi prov_box_D prov_grad_gi
+      grad_psi_at hess_L_prod hess_psi_prod eval_g grad_gi cbrt_eps hvf fd full_aug use_scaled :
+  dir_len n (sdstate (T:=R))
+          (struct_dir n pw LP lb ub l1 Dlb Dub prov_inactive prov_hess_L prov_hess_psi prov_box_D prov_grad_gi
+                      grad_psi_at hess_L_prod hess_psi_prod eval_g grad_gi cbrt_eps hvf fd full_aug use_scaled)
+          (fun _ => True) (SIv n LP).
+Proof.
+  constructor; cbn [struct_dir d_initialize d_update d_apply d_changed_gamma d_reset].
+  - intros d y S γ x xh p g d' _ _ _ _ _ E.
+    destruct (struct_init_ok prov_inactive prov_hess_L prov_hess_psi prov_box_D prov_grad_gi hvf fd full_aug); [|discriminate].
+    destruct (Lbfgs.resize LP n) as [st|] eqn:Er; [|discriminate]. injection E as <-. unfold SIv. cbn [sd_lbfgs].
+    destruct (Nat.ltb_spec (p_memory LP) 1) as [Hm|Hm].
+    { unfold Lbfgs.resize in Er. destruct (Nat.ltb_spec (p_memory LP) 1); [discriminate|lia]. }
+    destruct (resize_wf n LP Hm) as (st' & E' & Hst). rewrite Er in E'. injection E' as <-. exact Hst.
+  - intros d γ γn x xn p pn g gn Hd Hx Hxn _ _ Hg Hgn.
+    pose proof (update_wf n pw LP (sd_lbfgs d) x xn g gn true true Hd Hx Hxn Hg Hgn) as Hu.
+    destruct (Lbfgs.update pw LP (sd_lbfgs d) x xn g gn true true) as [b st']. exact Hu.
+  - intros d γ x xh p g q b q' d' Hd Hx _ Hp Hg E. unfold struct_apply in E.
+    set (J := inactive_indices_x lb ub l1 γ x g) in E.
+    destruct (Nat.eqb (length J) 0). { injection E as <- <- <-. split; [exact Hd|discriminate]. }
+    destruct (Nat.eqb (length J) n).
+    + pose proof (apply_wf n LP (sd_lbfgs d) (vscale (n1 / γ)%num p) γ Hd ltac:(now rewrite LiveVec.vscale_length)) as Ha. cbv zeta in Ha.
+      destruct (Lbfgs.apply LP (sd_lbfgs d) (vscale (n1 / γ)%num p) γ) as [[b0 q0] st0]. cbn [fst snd] in Ha.
+      injection E as <- <- <-. exact Ha.
+    + match type of E with context [let '(q1, d1) := ?X in _] => destruct X as [q1 d1] eqn:E1 end.
+      assert (H1 : length q1 = n /\ sd_lbfgs d1 = sd_lbfgs d).
+      { destruct (hvf_on hvf); injection E1 as <- <-; rewrite !set_on_length; split; auto. }
+      destruct H1 as [Hq1 Ed1].
+      pose proof (apply_masked_len n pw LP (sd_lbfgs d1) q1 γ J ltac:(rewrite Ed1; exact Hd) Hq1) as Hm.
+      destruct (apply_masked pw LP (sd_lbfgs d1) q1 γ J) as [[r q2] st']. destruct r as [|b0]; [discriminate|].
+      destruct Hm as [Hst' Hq2].
+      destruct b0; [injection E as <- <- <-; split; [exact Hst'|intros _; exact Hq2]|].
+      destruct use_scaled; injection E as <- <- <-; (split; [exact Hst'|]); [intros _; now rewrite set_on_length|discriminate].
+  - intros d a b Hd. exact Hd.
+  - intros d Hd. unfold SIv. cbn [sd_lbfgs]. now apply reset_wf.
+Qed.
